@@ -10,6 +10,8 @@ from ..runner import Sub
 from .c01 import call_simplifier, SIMPLIFIERS
 
 ID = 'C07'
+TECHNIQUE = 'exhaustive enumeration of all (index set, position list) pairs for n <= 10|12 + PBT on simplifier outputs, row permutations and position dtypes'
+LEVEL_TEXT = 'Exploration: Round trip mapping(I) == reduced[I]; complete for small n, sampled up to n = 1000. Finds counter-examples (shrunk to a replay file); never proves absence.'
 RULE = ('exhaustive: for n = 2..10 (quick) / 2..12 (thorough) EVERY index set containing 0 and n-1 x EVERY '
         'ascending position list I (all subsets of positions) -> mapping(I, reduced, removed) == reduced[I]; '
         'with sorted=False for reversed / rotated / (<= 4 rows: all) row permutations of removed; '
